@@ -74,6 +74,16 @@ CLAIMS = {
         design="6 C13",
         technique="explicit TLA+ spec + TLC model checking of interleavings; TLC-generated schedules replayed on the code and judged by TLC",
     ),
+    "C12": dict(
+        spec="FsMerge.tla / FsMergeGen.tla / FsMergeJudge.tla",
+        text="MergeIdeal (Snowflake's documented semantics for deterministic merges) and a transcription of the as-built "
+        "explosion are both TLA+ operators; TLC model-checks the ideal (result, true counts, source untouched, no helper) over the "
+        "bounded product target x source x clause list, shows that each recorded deviation violates it, and enumerates the "
+        "product; sampled and covering subsets are replayed on real connections in seven render forms and two keyword cases "
+        "(target, source and a decoy table read through a raw cursor) and every step is judged by TLC.",
+        design="6 C12",
+        technique="explicit TLA+ spec (ideal + as-built transcription) + TLC; TLC-enumerated cases replayed on the code and judged by TLC",
+    ),
 }
 
 
